@@ -65,7 +65,7 @@ def cases(draw, tier):
         scheme = draw(gen.near_presets(["unifying", "unifying_half", "induced", "induced_half"]))
     else:
         scheme = draw(gen.dyadic_schemes())
-    ds = draw(gen.datasets(max_n=15 if big else 8, max_m=7 if big else 5))
+    ds = draw(gen.datasets(max_n=15 if big else 8, max_m=7 if big else 5, many="thousand"))
     n = len(oracle.universe(ds["rankings"]))
     m = len(ds["rankings"])
     return {"scheme": scheme, "dataset": ds, "bucket_id": draw(st.booleans()), "family": fam,
